@@ -1,3 +1,56 @@
-Require Import Base Opcode Tables Ops.
-Example placeholder_C17 : True. Proof. exact I. Qed.
-Print Assumptions placeholder_C17.
+(* C17 — `in` / `overlap` are set membership / non-empty intersection for lists of any size.
+   Only statements here; proofs in Proofs/OpsList.v. *)
+Require Import Base Opcode Tables Ops OpsList.
+Open Scope Z_scope.
+
+Theorem C17_in_int_list : forall x l, exists b, list_in [VInt x; VIntL l] = Ok (VBool b) /\ (b = true <-> In x l).
+Proof. exact in_int_list. Qed.
+Theorem C17_in_str_list : forall x l, exists b, list_in [VStr x; VStrL l] = Ok (VBool b) /\ (b = true <-> In x l).
+Proof. exact in_str_list. Qed.
+Theorem C17_in_int_set : forall x l, exists b, list_in [VInt x; VIntSet l] = Ok (VBool b) /\ (b = true <-> In x l).
+Proof. exact in_int_set. Qed.
+Theorem C17_in_str_set : forall x l, exists b, list_in [VStr x; VStrSet l] = Ok (VBool b) /\ (b = true <-> In x l).
+Proof. exact in_str_set. Qed.
+Theorem C17_in_empty_literal : forall p, (exists x, p = VInt x) \/ (exists s, p = VStr s) -> list_in [p; VStrL []] = Ok (VBool false).
+Proof. exact in_empty_literal. Qed.
+Theorem C17_in_type_mismatch :
+  (forall x s l, list_in [VInt x; VStrL (s :: l)] = Err (EType (ss "in"))) /\
+  (forall x l, list_in [VStr x; VIntL l] = Err (EType (ss "in"))) /\
+  (forall x l, list_in [VInt x; VStrSet l] = Err (EType (ss "in"))) /\
+  (forall x l, list_in [VStr x; VIntSet l] = Err (EType (ss "in"))).
+Proof. exact in_type_mismatch. Qed.
+
+(* overlap = non-empty intersection, for every pair of lengths (the scan path below the generated threshold,
+   the hash-the-shorter-list path above it) *)
+Theorem C17_overlap_int : forall a b, exists r, list_overlap [VIntL a; VIntL b] = Ok (VBool r) /\ (r = true <-> exists x, In x a /\ In x b).
+Proof. exact overlap_int. Qed.
+Theorem C17_overlap_str : forall a b, exists r, list_overlap [VStrL a; VStrL b] = Ok (VBool r) /\ (r = true <-> exists x, In x a /\ In x b).
+Proof. exact overlap_str. Qed.
+Theorem C17_scan_eq_hash : forall (a b : list Z), ov_scan Z.eqb a b = ov_hash Z.eqb a b.
+Proof. exact (scan_eq_hash Z.eqb Z.eqb_eq). Qed.
+Theorem C17_overlap_symmetric : forall p q, is_list p = true -> is_list q = true -> list_overlap [p; q] = list_overlap [q; p].
+Proof. exact overlap_symmetric. Qed.
+Theorem C17_overlap_empty_literal : forall q, is_list q = true ->
+  list_overlap [VStrL []; q] = Ok (VBool false) /\ list_overlap [q; VStrL []] = Ok (VBool false).
+Proof. exact overlap_empty_literal. Qed.
+Theorem C17_overlap_type_mismatch :
+  (forall s a b, list_overlap [VStrL (s :: a); VIntL b] = Err (EType (ss "overlap"))) /\
+  (forall s a b, list_overlap [VIntL b; VStrL (s :: a)] = Err (EType (ss "overlap"))) /\
+  (forall p q, is_list p = false -> list_overlap [p; q] = Err (EType (ss "overlap"))) /\
+  (forall p q, is_list p = true -> is_list q = false -> list_overlap [p; q] = Err (EType (ss "overlap"))).
+Proof. exact overlap_type_mismatch. Qed.
+Theorem C17_counts : (forall ps, length ps <> 2%nat -> list_overlap ps = Err (ECount (mname "overlap"))) /\
+                     (forall ps, length ps <> 2%nat -> list_in ps = Err (ECount (mname "in"))).
+Proof. exact (conj overlap_count in_count). Qed.
+
+(* non-vacuity: a disjoint pair on the hashing side of the switch with the longer list first *)
+Example C17_ex_hash_disjoint :
+  list_overlap [VIntL (map Z.of_nat (seq 0 120)); VIntL [500; 501]] = Ok (VBool false) /\
+  list_overlap [VIntL [500; 501]; VIntL (map Z.of_nat (seq 0 120))] = Ok (VBool false) /\
+  list_overlap [VIntL (map Z.of_nat (seq 0 120)); VIntL [500; 7]] = Ok (VBool true).
+Proof. vm_compute. repeat split. Qed.
+
+Print Assumptions C17_overlap_int.
+Print Assumptions C17_overlap_symmetric.
+Print Assumptions C17_overlap_empty_literal.
+Print Assumptions C17_in_int_list.
